@@ -75,6 +75,18 @@ func (p *c04) Cases(tier string, emit func(interface{})) {
 		}
 		emit(c04Case{Part: "lists", Schema: "base", Source: src})
 	}
+	// Go structs as the source (no choices through nodeutil.Reflect: it does not implement them)
+	for _, src := range store.StructImpls {
+		for _, sc := range []string{"base", "keys", "choice"} {
+			if sc != "base" && strings.HasPrefix(src, "reflect-") {
+				// nodeutil.Reflect over structs: no choices, and an unset enumeration kept in a
+				// string field cannot be read ("could not coerce '' into enum")
+				continue
+			}
+			emit(c04Case{Part: "trees", Schema: sc, Source: src, B: c04B(tier)})
+		}
+		emit(c04Case{Part: "lists", Schema: "base", Source: src})
+	}
 	if tier == "thorough" {
 		ls := typesLeaves()
 		for i, a := range ls {
@@ -160,7 +172,7 @@ func c04TypeOf(m *meta.Module, schemaPath string) string {
 
 // c04Check runs all clauses on one tree held by one source implementation.
 func c04Check(c c04Case, m *meta.Module, t *model.Tree, what string, onlyCfg string, res *eng.Result, ss *sigSet) {
-	env := &dataEnv{m: m, st: store.New(c.Source)}
+	env := &dataEnv{m: m, st: store.NewFor(c.Source, m)}
 	env.b = node.NewBrowser(m, env.st.Root())
 	tag := c.Leaf
 	if c.Leaf2 != "" {
@@ -214,7 +226,8 @@ func c04Check(c c04Case, m *meta.Module, t *model.Tree, what string, onlyCfg str
 		return
 	}
 	res.States++
-	o := model.CanonOpts{IgnoreEntryOrder: env.st.MapLists()}
+	o := env.canonOpts()
+	isStruct := store.IsStructImpl(c.Source)
 
 	// (a) export into a recording reference node
 	if onlyCfg == "" || onlyCfg == "export" {
@@ -233,7 +246,8 @@ func c04Check(c c04Case, m *meta.Module, t *model.Tree, what string, onlyCfg str
 			model.StripDefaults(m.DataDefinitions(), t, dst.T)
 			if kd, w := model.Diff(m.DataDefinitions(), t, dst.T, o, ""); kd != "" {
 				report("export-result", kd, w, "export")
-			} else {
+			} else if !isStruct { // a struct source reports its zero-valued fields too: the write sequence is only checked for sources that can leave a leaf unset
+
 				var want []string
 				expectWrites(m.DataDefinitions(), t, "", &want)
 				got := stripDefaultWrites(m, t, recordedWrites(log))
